@@ -498,6 +498,47 @@ func c17ScanVsDrain(kind, kt, n, from, to, rounds, scanners, procs int) *c17Conc
 	return cc
 }
 
+// c17DupRead is the focused witness for point lookups of a key whose row ids span several node pages: one key with
+// `dups` row ids under a key of strLen bytes between two untouched keys; one goroutine deletes the row ids in a seeded
+// random order and inserts as many new ones, `rounds` times, while `readers` goroutines call ScanKey on that key.
+func c17DupRead(kind, strLen, dups, rounds, readers, procs int, seed int64) *c17ConcCase {
+	cfg := &c17ConcCfg{Kind: kind, KT: im.KStr, KindName: c17KindNames[kind], TypeName: c17TypeNames[im.KStr], Workers: 1 + readers, Mutators: 1, Procs: procs, Frames: 2048, Profile: "dup-read", StrLen: strLen}
+	cc := &c17ConcCase{cfg: cfg}
+	for i := 0; i < 3; i++ {
+		cc.keys = append(cc.keys, c17KeyAt(im.KStr, 0, i, strLen, "k"))
+	}
+	rng := rand.New(rand.NewSource(seed))
+	rid := 0
+	newEnt := func(k int, bg, pre bool) int {
+		rid++
+		cc.ents = append(cc.ents, im.EntInfo{Key: k, Rid: im.RID{Page: int32(rng.Intn(1 << 20)), Slot: uint32(rid)}, Background: bg, Preloaded: pre})
+		return len(cc.ents) - 1
+	}
+	newEnt(0, true, true)
+	newEnt(2, true, true)
+	var live []int
+	for i := 0; i < dups; i++ {
+		live = append(live, newEnt(1, false, true))
+	}
+	cc.progs = make([][]c17Step, cfg.Workers)
+	for r := 0; r < rounds; r++ {
+		rng.Shuffle(len(live), func(i, j int) { live[i], live[j] = live[j], live[i] })
+		for _, e := range live {
+			cc.progs[0] = append(cc.progs[0], c17Step{Kind: c17StepDel, Key: 1, Kill: e, Make: -1})
+		}
+		for i := range live {
+			live[i] = newEnt(1, false, false)
+			cc.progs[0] = append(cc.progs[0], c17Step{Kind: c17StepIns, Key: 1, Make: live[i], Kill: -1})
+		}
+	}
+	for w := 1; w <= readers; w++ {
+		for j := 0; j < rounds*dups; j++ {
+			cc.progs[w] = append(cc.progs[w], c17Step{Kind: c17StepGet, Key: 1, Make: -1, Kill: -1})
+		}
+	}
+	return cc
+}
+
 func c17ExecConc(cc *c17ConcCase, loadSeed int64, res *core.CaseResult, tags []string, desc map[string]any, sample bool) {
 	cfg := cc.cfg
 
